@@ -157,7 +157,7 @@ class Paced(object):
 
 
 def make_case(rng):
-    buf = rng.choice([0, 1, 2, 32])
+    buf = rng.choice([0, 1, 2, 2, 3, 5, 32])
     view = 'sbs' if rng.random() < 0.3 else 'unified'
     if rng.random() < 0.2:
         lines, _m, _p = corpus.gen_combined(rng, conflict=False, nparents=2)
@@ -175,10 +175,12 @@ def make_case(rng):
                     continue
                 # runs of changed lines of length 0 .. 3 x buffer
                 new = []
-                for _ in range(rng.randint(1, 3)):
-                    new.append((' ', gen.rand_text(rng, 30, allow_empty=False, tabs_ok=False)))
-                    nm = rng.randint(0, min(3 * max(buf, 1), 8))
-                    np_ = rng.randint(0, min(3 * max(buf, 1), 8))
+                cap = 40 if buf == 32 and rng.random() < 0.5 else min(3 * max(buf, 1), 8)     # (runs longer than the buffer, also for 32)
+                for j in range(rng.randint(1, 3) if cap <= 8 else 1):
+                    if j > 0 or rng.random() < 0.7:
+                        new.append((' ', gen.rand_text(rng, 30, allow_empty=False, tabs_ok=False)))     # (else: the hunk opens with a changed line)
+                    nm = rng.randint(0, cap)
+                    np_ = rng.randint(0, cap)
                     new += [('-', gen.rand_text(rng, 30, allow_empty=False, tabs_ok=False)) for _ in range(nm)]
                     new += [('+', gen.rand_text(rng, 30, allow_empty=False, tabs_ok=False)) for _ in range(np_)]
                 h.lines = new
